@@ -139,6 +139,44 @@ def h_family(ex, kind, fit_shape, tr_shape, cfg):
     return out
 
 
+def h_vs_token(ex, kind, lens, cfg):
+    """C03 for the timed / multiset drivers without a separate oracle: with the flat kernel the timed vectorizer
+    (whatever the timestamps) and the multiset vectorizer on singleton multisets must produce exactly the matrix of the
+    real TokenCooccurrenceVectorizer -- which C03 checks against the windowed-count definition -- on the same tokens"""
+    tc = loader.load("vectorizers.token_cooccurrence_vectorizer")
+    C = _cls(kind)
+    toks = [[fresh_int("x%d_%d" % (d, j), 0, None) for j in range(n)] for d, n in enumerate(lens)]
+    register("tokens", toks)
+    if kind == "timed":
+        X = []
+        times = []
+        for d, doc in enumerate(toks):
+            prev = None
+            row, trow = [], []
+            for j, t in enumerate(doc):
+                tm = fresh_real("t%d_%d" % (d, j), 0, 1000)
+                if prev is not None:
+                    assume(tm >= prev)
+                prev = tm
+                row.append((t, tm))
+                trow.append(tm)
+            X.append(row)
+            times.append(trow)
+        register("times", times)
+    else:
+        X = [[[t] for t in doc] for doc in toks]
+    kw = dict(window_radii=cfg.get("radii", 1), window_orientations=cfg.get("orientations", "directional"), kernel_functions="flat",
+              normalize_windows=cfg.get("normalize_windows", False))
+    a = C(**kw)
+    b = tc.TokenCooccurrenceVectorizer(**kw)
+    Ma = _run(a.fit_transform, X)
+    Mb = _run(b.fit_transform, [list(d) for d in toks])
+    check("same vocabulary as TokenCooccurrenceVectorizer", len(a.token_label_dictionary_) == len(b.token_label_dictionary_) and
+          all(k in b.token_label_dictionary_ and bool(a.token_label_dictionary_[k] == b.token_label_dictionary_[k]) for k in a.token_label_dictionary_))
+    check("flat kernel: same matrix as TokenCooccurrenceVectorizer on the same tokens", _same(Ma, Mb))
+    return {"fit": Ma}
+
+
 def grid(tier):
     G = []
     if tier == "quick":
@@ -168,6 +206,16 @@ def grid(tier):
                 for cap in (2, 3, 4, 5):
                     G.append((kind, f, None, dict(radii=2, orientations="directional", normalize_windows=False, cap=cap, alt=dict(n_threads=1))))
     return G
+
+
+def vs_token_cases(tier):
+    G = [("timed", [3], dict(radii=2, orientations="after")), ("multiset", [3], dict(radii=1, orientations="directional")),
+         ("timed", [2, 1], dict(radii=1, orientations="before", normalize_windows=True))] if tier == "quick" else \
+        [(k, l, dict(radii=r, orientations=o, normalize_windows=nw)) for k in ("timed", "multiset") for l in ([3], [2, 2], [4]) for r in (1, 2)
+         for o in ("after", "before", "directional") for nw in (False, True)]
+    return [Case("%s_vs_token[lens=%s,%s]" % (k, l, ",".join("%s=%s" % kv for kv in sorted(c.items()))), h_vs_token, dict(kind=k, lens=l, cfg=c),
+                 replay="cooc_family:replay_vs_token", functions=FUNCS, shards=8 if sum(l) >= 4 else 1, shard_depth=8,
+                 bounds={"kind": k, "document lengths": l, "configuration": c, "timestamps": "non-decreasing reals", "multisets": "singletons"}) for k, l, c in G]
 
 
 def cases(tier, memory_only=False):
